@@ -183,12 +183,14 @@ fn churn(r: &mut Rng) -> Profile {
     p.rm_choices = vec![None];
     // some brokers limit the packet size: requests above it are refused and must occupy nothing
     p.mps_choices = vec![None, None, None, Some(48), Some(120)];
-    p.maxqos_choices = vec![None];
+    // (a broker that caps the QoS: with auto-downgrade on, publishes above the cap go out at the
+    // cap - downgraded to QoS 0 they must not occupy anything)
+    p.maxqos_choices = vec![None, None, None, Some(0), Some(1)];
     p.assigned_id_pct = 0;
     p.extra_connack_props_pct = 0;
     p.will_pct = 0;
     p.auth_pct = 0;
-    p.downgrade_pct = 0;
+    p.downgrade_pct = 50;
     p.tx_choices = vec![64, 96, 128, 256, 512, 1024, 4096, 16384, 65536];
     p.rx_choices = vec![64, 128];
     p.payload_max = *r.pick(&[8usize, 30, 60, 200, 3000]);
